@@ -434,4 +434,220 @@ theorem timeoutStep_result (kid : Kid) (c : Caller) (h : c.isDone = false) :
     · right; right; rfl
   · left; rfl
 
+/-! ### the registry entry of the name, as a state component (not a ghost flag)
+
+`Sh.name` has three writers: `status.unreg_name` of the exiting actor (→ `none`, whoever holds the
+entry), a successor registering the free name (→ `succ`), and nobody ever gives it back to the
+exiting actor. From the step after `status.unreg_name` on, the entry is not the exiting actor's. -/
+
+/-- what a step can do to the name entry: leave it, or remove it -/
+def NameStep (old new : NameHolder) : Prop := new = old ∨ new = .none
+
+theorem stepSet_nameStep (sh : Sh) (ws : List Waiter) (c : SPc) :
+    NameStep sh.name (stepSet sh ws c).1.name := by
+  by_cases h : ∃ s p, c = .unregName s p
+  · obtain ⟨s, p, rfl⟩ := h; exact Or.inr rfl
+  · exact Or.inl (stepSet_name sh ws c (fun s p e => h ⟨s, p, e⟩))
+
+theorem stepExiter_nameStep (sh : Sh) (ws : List Waiter) (ex : Exiter) :
+    NameStep sh.name (stepExiter sh ws ex).1.name := by
+  obtain ⟨pc, post, lc, armed, unwound⟩ := ex
+  cases pc <;> simp only [stepExiter] <;>
+    first
+    | exact Or.inl rfl
+    | (rename_i c
+       have := stepSet_nameStep sh ws c; revert this
+       generalize stepSet sh ws c = r; obtain ⟨a, b, c'⟩ := r; intro this; cases c' <;> exact this)
+    | (rename_i c rest
+       have := stepSet_nameStep sh ws c; revert this
+       generalize stepSet sh ws c = r; obtain ⟨a, b, c'⟩ := r; intro this; cases c' <;> exact this)
+
+theorem stepSetter_nameStep (sh : Sh) (ws : List Waiter) (t : Setter) :
+    NameStep sh.name (stepSetter sh ws t).1.name := by
+  obtain ⟨call, rest⟩ := t
+  cases call with
+  | some c => simp only [stepSetter]; exact stepSet_nameStep sh ws c
+  | none =>
+    cases rest with
+    | nil => exact Or.inl rfl
+    | cons s rest => simp only [stepSetter]; exact stepSet_nameStep sh ws (.publish s)
+
+/-- no step gives the name entry (back) to the exiting actor -/
+theorem name_not_self_step (g : G) (t : Tid) (hn : g.sh.name ≠ .self) : (step g t).sh.name ≠ .self := by
+  have key : ∀ n : NameHolder, NameStep g.sh.name n → n ≠ .self := by
+    intro n h; rcases h with h | h
+    · rw [h]; exact hn
+    · rw [h]; decide
+  cases t with
+  | e => simp only [step]; exact key _ (stepExiter_nameStep _ _ _)
+  | s i =>
+    simp only [step]
+    split
+    · exact hn
+    · exact key _ (stepSetter_nameStep _ _ _)
+  | w i =>
+    simp only [step]
+    split
+    · exact hn
+    · rename_i w hw
+      obtain ⟨pc, wk⟩ := w
+      cases pc <;> simp only [stepWaiter] <;> (repeat' split) <;> exact hn
+  | abandon i =>
+    simp only [step]
+    split
+    · exact hn
+    · split
+      · exact hn
+      · exact hn
+      · split
+        · simp only [notifyOne]; split <;> exact hn
+        · exact hn
+  | d i => simp only [step]; split <;> exact hn
+  | succ =>
+    simp only [step]
+    split
+    · simp
+    · exact hn
+  | unwind =>
+    simp only [step]
+    split
+    · exact hn
+    · split <;> (try split) <;> exact hn
+
+/-- at `status.unreg_name` the entry is removed -/
+theorem name_none_after_unreg (g : G) (h : InvCore g) (h2 : g.exiter.pc.stage = 2) :
+    (step g .e).sh.name = .none := by
+  obtain ⟨sh, ex, setters, ws, drs⟩ := g
+  obtain ⟨pc, post, lc, armed, unwound⟩ := ex
+  have hv := h.valid
+  simp only at h2 hv
+  cases pc <;> (try rename_i c; cases c) <;> simp [EPc.stage] at h2 <;> simp [step, stepExiter, stepSet]
+
+/-- stages 0 and 1 are left one at a time -/
+theorem stage_small_step (g : G) (h : InvCore g) (h1 : g.exiter.pc.stage ≤ 1) :
+    (step g .e).exiter.pc.stage ≤ 2 := by
+  have h0 := h.sh.s0
+  obtain ⟨sh, ex, setters, ws, drs⟩ := g
+  obtain ⟨pc, post, lc, armed, unwound⟩ := ex
+  have hv := h.valid
+  simp only at h1 hv h0
+  cases pc <;> (try rename_i c; cases c) <;> simp [EPc.stage] at h1 <;>
+    simp only [EPc.valid, Bool.false_eq_true, Bool.and_eq_true, beq_iff_eq, decide_eq_true_eq] at hv
+  · -- `set1 (publish s)`: the cleanup block is elected (status below `Stopping`)
+    subst hv
+    have hlt := h0 rfl
+    have : (decide (stStopping ≥ stStopping) && decide (sh.status < stStopping)) = true := by simp [hlt]
+    simp only [step, stepExiter, stepSet, this, if_true, EPc.stage]
+    omega
+  · simp [step, stepExiter, stepSet, EPc.stage]
+
+/-- `3 ≤ stage → the name entry is not the exiting actor's` is an invariant -/
+theorem name_gone_step (g : G) (t : Tid) (h : Inv g)
+    (hn : 3 ≤ g.exiter.pc.stage → g.sh.name ≠ .self) :
+    3 ≤ (step g t).exiter.pc.stage → (step g t).sh.name ≠ .self := by
+  intro h3
+  by_cases he : t = .e
+  · subst he
+    by_cases hs : 3 ≤ g.exiter.pc.stage
+    · exact name_not_self_step g .e (hn hs)
+    · by_cases h2 : g.exiter.pc.stage = 2
+      · rw [name_none_after_unreg g h.toInvCore h2]; decide
+      · have := stage_small_step g h.toInvCore (by omega); omega
+  · by_cases hu : t = .unwind
+    · subst hu
+      have hs : 3 ≤ g.exiter.pc.stage := by
+        by_cases hpc : g.exiter.pc = .terminate ∨ g.exiter.pc = .notifySup ∨ g.exiter.pc = .unlink
+        · rcases hpc with e | e | e <;> rw [e] <;> simp [EPc.stage]
+        · have hsame : (step g .unwind).exiter = g.exiter := by
+            simp only [step]
+            split
+            · rfl
+            · split
+              all_goals first | rfl | (rename_i e; exact absurd (by simp [e]) hpc)
+          rw [hsame] at h3; exact h3
+      exact name_not_self_step g .unwind (hn hs)
+    · rw [other_steps_keep_exiter g t he hu] at h3
+      exact name_not_self_step g t (hn h3)
+
+theorem name_gone_run (g : G) (l : List Tid) (h : Inv g)
+    (hn : 3 ≤ g.exiter.pc.stage → g.sh.name ≠ .self) :
+    3 ≤ (run g l).exiter.pc.stage → (run g l).sh.name ≠ .self := by
+  induction l generalizing g with
+  | nil => exact hn
+  | cons t l ih =>
+    simp only [run, List.foldl_cons]
+    exact ih _ (inv_step g t h) (name_gone_step g t h hn)
+
+/-! ### every step of the layer advances kids only by their own base steps -/
+
+theorem Adv.trans {a b c : Kid} (h1 : Adv a b) (h2 : Adv b c) : Adv a c := by
+  obtain ⟨l, e1⟩ := h1
+  obtain ⟨m, e2⟩ := h2
+  exact ⟨l ++ m, by rw [e2, e1]; simp [run, List.foldl_append]⟩
+
+theorem adv_of_mem_set {kids : List Kid} {i : Nat} {kid kid' : Kid} (hk : kids[i]? = some kid)
+    (ha : Adv kid kid') : ∀ k' ∈ kids.set i kid', ∃ k ∈ kids, Adv k k' := by
+  intro k' hk'
+  rcases List.mem_or_eq_of_mem_set hk' with h | h
+  · exact ⟨k', h, Adv.refl' _ _ rfl⟩
+  · exact ⟨kid, List.mem_of_getElem? hk, h ▸ ha⟩
+
+theorem xstep_kids_adv (x : X) (t : XTid) : ∀ k' ∈ (xstep x t).kids, ∃ k ∈ x.kids, Adv k k' := by
+  have same : ∀ k' ∈ x.kids, ∃ k ∈ x.kids, Adv k k' := fun k' h => ⟨k', h, Adv.refl' _ _ rfl⟩
+  cases t with
+  | kid k t =>
+    simp only [xstep]; split
+    · exact same
+    · rename_i kid hk; exact adv_of_mem_set hk (Adv.one _ _ t rfl)
+  | stop k =>
+    simp only [xstep]; split
+    · exact same
+    · rename_i kid hk; exact adv_of_mem_set hk (Adv.refl' _ _ rfl)
+  | kill k =>
+    simp only [xstep]; split
+    · exact same
+    · rename_i kid hk; exact adv_of_mem_set hk (Adv.refl' _ _ rfl)
+  | mark k =>
+    simp only [xstep]; split
+    · exact same
+    · rename_i kid hk; exact adv_of_mem_set hk (Adv.refl' _ _ rfl)
+  | call j =>
+    simp only [xstep]; split
+    · exact same
+    · split
+      · exact same
+      · rename_i kid hk; exact adv_of_mem_set hk (callStep_adv kid _)
+  | timeout j =>
+    simp only [xstep]; split
+    · exact same
+    · split
+      · exact same
+      · rename_i kid hk; exact adv_of_mem_set hk (timeoutStep_adv kid _)
+  | wrap i =>
+    simp only [xstep]; split
+    · exact same
+    · split <;> exact same
+
+theorem xrun_kids_adv (x : X) (l : List XTid) : ∀ k' ∈ (xrun x l).kids, ∃ k ∈ x.kids, Adv k k' := by
+  induction l generalizing x with
+  | nil => exact fun k' h => ⟨k', h, Adv.refl' _ _ rfl⟩
+  | cons t l ih =>
+    intro k' hk'
+    simp only [xrun, List.foldl_cons] at hk'
+    obtain ⟨k1, hk1, a1⟩ := ih (xstep x t) k' hk'
+    obtain ⟨k0, hk0, a0⟩ := xstep_kids_adv x t k1 hk1
+    exact ⟨k0, hk0, a0.trans a1⟩
+
+/-- the name entry of every kid: released from `status.unreg_name` on, for good -/
+theorem xrun_name_gone (x0 : X) (h0 : XInitial x0) (l : List XTid) :
+    ∀ kid ∈ (xrun x0 l).kids, 3 ≤ kid.g.exiter.pc.stage → kid.g.sh.name ≠ .self := by
+  intro kid hk
+  obtain ⟨k0, hk0, ⟨m, e⟩⟩ := xrun_kids_adv x0 l kid hk
+  have hi := h0.kids k0 hk0
+  rw [e]
+  exact name_gone_run k0.g m (inv_initial _ hi) (fun h3 => by rw [hi.exiter] at h3; simp [EPc.stage] at h3)
+
+theorem loopGone_of_stage {pc : EPc} (h : 6 ≤ pc.stage) : pc.loopGone = true := by
+  cases pc <;> (try rename_i c; cases c) <;> simp [EPc.stage] at h <;> rfl
+
 end ExitRace
